@@ -3,7 +3,7 @@
 cd "$(dirname "$0")/.."
 bad=0
 for d in benign/*/; do
-  out=$(/venv/bin/python tools/benign_eval.py "$d/change.diff" 2>&1)
+  out=$(/venv/bin/python tools/benign_eval.py "$(pwd)/${d%/}/change.diff" 2>&1)
   rcs=$(echo "$out" | grep -o '"rc": [0-9]*' | sort | uniq -c | tr '\n' ' ')
   echo "$(basename $d): $rcs"
   if echo "$out" | grep -q '"rc": [12]'; then bad=$((bad+1)); echo "$out" | grep -B2 -A8 '"rc": [12]' | cut -c1-400; fi
